@@ -262,6 +262,7 @@ def run(m, tier):
     results.append(r12_stray_end(m, blocks))
     from rules import order_rules
     results.append(order_rules.eof_probe_rule(m, "C08.R13"))
+    results.append(engine_tables.whole_string_pattern_rule(m, "C08.R14"))
     expl = ("Decides the structural clauses of C08: the table of block constructs extracted from every "
             "BlockBase.match call site agrees with the Fortran 2003/2008 rules (opening/END pair, name and label "
             "comparison flags), every END statement class names its keyword and refuses a bare END where the standard "
